@@ -48,6 +48,7 @@ func init() {
 
 func c16(r *Run) {
 	w := r.W
+	defer r.importRules(c26, "C26.R3")
 	r.rule("C16.R1", "K1", "every transaction's (unsigned bytes, auth) is added; job sized len(Txs); Done always scheduled", 4)
 	r.rule("C16.R2", "K2", "Execute succeeds only through waitSignatures==nil on the job created by verifySignatures; waitSignatures propagates Job.Wait's error", 3)
 	r.rule("C16.R3", "K7", "AuthBatch.Add submits on both branches; Done drains every worker, forwards leftovers, then closes the job; worker forwards early batches", 6)
